@@ -16,17 +16,92 @@ pub fn prop() -> Prop {
 
 fn spec() -> Spec {
     Spec {
-        kinds: vec![Kind { name: "fk", quick: 2_000_000, thorough: 60_000_000, serial: false }],
+        kinds: vec![Kind { name: "fk", quick: 2_000_000, thorough: 60_000_000, serial: false }, Kind { name: "shared_history", quick: 100_000, thorough: 3_000_000, serial: false }],
         rule: "each case = one generated robot (all geometry classes incl. degenerate, 64 sign patterns round-robin, three offset classes, dof 5/6) x one joint vector (classes [-pi,pi], [-2pi,2pi], 1e3 turns, 1e6 turns); the library's forward() and forward_with_joint_poses() are compared with the plain-array link chain; non-trivial = all results finite; distinct = hash(robot, q)",
         assumptions: vec![
             "reference chain Tz(c1)Rz(t1).T(a1,b,0)Ry(t2).Tz(c2)Ry(t3).Tx(a2)Rz(t4).Tz(c3)Ry(t5).Tz(c4)Rz(t6), t=sign*q-offset, is the OPW model",
             "tolerance (1e-11 + 2e-15*max|q|)*(1+reach) m and (1e-11 + 2e-15*max|q|) rad absorbs the different floating point evaluation orders (angle sums rounded at ulp(|q|))",
         ],
-        minimums: vec![("oracle_evals", 20_000_000, 600_000_000), ("b_nonzero", 300_000, 10_000_000), ("big_q", 300_000, 10_000_000)],
+        minimums: vec![("oracle_evals", 20_000_000, 600_000_000), ("b_nonzero", 300_000, 10_000_000), ("big_q", 300_000, 10_000_000), ("history.steps", 500_000, 15_000_000)],
     }
 }
 
-fn run_case(_kind: &str, idx: u64, rng: &mut Rng, mon: &mut Mon, _tier: Tier) {
+/// History workload: robots that share their link lengths but differ in sign corrections, offsets or
+/// one length are evaluated at bit-identical joint vectors one after the other on the same thread, and
+/// the same robot is asked twice; every answer is compared with that robot's own chain. The result may
+/// depend on the parameters and the joint vector only.
+fn shared_history(idx: u64, rng: &mut Rng, mon: &mut Mon) {
+    let first = gen_robot(rng, idx, RobotMode::All, 0.15);
+    let mut robots = vec![first];
+    for _ in 0..(1 + rng.usize(3)) {
+        let mut r = first;
+        match rng.usize(4) {
+            0 => {
+                let j = rng.usize(6);
+                r.rp.signs[j] = -r.rp.signs[j];
+            }
+            1 => r.rp.offsets[rng.usize(6)] += *rng.pick(&[std::f64::consts::FRAC_PI_2, -std::f64::consts::FRAC_PI_2, 0.3, std::f64::consts::PI]),
+            2 => {
+                for j in 0..6 {
+                    if rng.bool(0.5) {
+                        r.rp.signs[j] = -r.rp.signs[j];
+                    }
+                    if rng.bool(0.3) {
+                        r.rp.offsets[j] += rng.range(-1.0, 1.0);
+                    }
+                }
+            }
+            _ => r.rp.c4 += rng.range(0.01, 0.1),
+        }
+        robots.push(r);
+    }
+    let kins: Vec<OPWKinematics> = robots.iter().map(|r| OPWKinematics::new(to_params(&r.rp))).collect();
+    let nq = 1 + rng.usize(3);
+    let qs: Vec<[f64; 6]> = (0..nq).map(|_| { let c = rng.usize(2); joints_class(rng, c) }).collect();
+    let steps = 2 * nq * robots.len() + 2;
+    let (mut pr, mut pq) = (usize::MAX, usize::MAX);
+    for step in 0..steps {
+        // every other step keeps the joint vector and changes the robot
+        let (r, k) = if step % 2 == 1 && pq != usize::MAX { ((pr + 1 + rng.usize(robots.len() - 1)) % robots.len(), pq) } else { (rng.usize(robots.len()), rng.usize(nq)) };
+        pr = r;
+        pq = k;
+        let rp = robots[r].rp;
+        let q = qs[k];
+        let refc = chain(&rp, &q);
+        let tol = 1e-11 * (1.0 + rp.reach());
+        let which = rng.usize(3);
+        mon.count("history.steps");
+        let detail = |what: &str, dp: f64, dr: f64| json!({"robots": robots.iter().map(robot_json).collect::<Vec<_>>(), "robot_index": r, "q": jf(&q), "step": step, "call": what, "dp": dp, "dr": dr});
+        if which != 1 {
+            let f = iso_to_fr(&kins[r].forward(&q));
+            let (dp, dr) = (pos_dist(&f, &refc[5]), rot_angle(&f.r, &refc[5].r));
+            if !(dp <= tol && dr <= 1e-11) {
+                mon.violation("history:fk-vs-chain", "forward() differs from the reference chain after other robots / vectors were evaluated on the same thread", detail("forward", dp, dr));
+            } else {
+                mon.held();
+            }
+        }
+        if which != 0 {
+            let links = kins[r].forward_with_joint_poses(&q);
+            for i in 0..6 {
+                let l = iso_to_fr(&links[i]);
+                let (dp, dr) = (pos_dist(&l, &refc[i]), rot_angle(&l.r, &refc[i].r));
+                if !(dp <= tol && dr <= 1e-11) {
+                    mon.violation("history:link-vs-chain", "a link pose differs from the reference chain after other robots / vectors were evaluated on the same thread", detail("forward_with_joint_poses", dp, dr));
+                    break;
+                } else {
+                    mon.held();
+                }
+            }
+        }
+    }
+    mon.nontrivial(hash_combine(robot_hash(&first), hash_f64s(&qs[0])));
+}
+
+fn run_case(kind: &str, idx: u64, rng: &mut Rng, mon: &mut Mon, _tier: Tier) {
+    if kind == "shared_history" {
+        return shared_history(idx, rng, mon);
+    }
     let robot = gen_robot(rng, idx, RobotMode::All, 0.15);
     let rp = robot.rp;
     let qclass = rng.usize(5);
